@@ -792,6 +792,14 @@ func (d *Driver) NextDid() Event {
 				creator = d.pick(accs)
 			}
 			e := Event{Kind: "DidUpdate", Creator: creator, Did: did, Tx: rm, Datas: keep, Amount: []int64{0, 0, -901, -100}[d.R.Intn(4)]}
+			if d.R.Intn(4) == 0 {
+				// also name account dids that belong to ANOTHER did
+				for _, b := range d.St.Bindings {
+					if b.Did != did && d.R.Intn(2) == 0 {
+						e.Ro = append(e.Ro, "ad_"+b.Acc+"_"+b.Did)
+					}
+				}
+			}
 			if d.R.Intn(5) == 0 {
 				for _, sd := range d.St.Seeds {
 					if sd.Did == did && len(sd.Accs) > 0 {
